@@ -57,8 +57,111 @@ func leanChars(s string) string {
 	return "[" + strings.Join(parts, ",") + "]"
 }
 
+// ---- helpers that identify things by role -----------------------------------------------------------------
+
+// c15Callees returns the same-package functions (with a body) reachable from the roots through calls, in a
+// deterministic order.  Function names are not part of any fact; reachability is what ties a helper to load.
+func c15Reachable(x *X, dir string, roots ...*ast.FuncDecl) []*ast.FuncDecl {
+	var out []*ast.FuncDecl
+	seen := map[*ast.FuncDecl]bool{}
+	var visit func(fd *ast.FuncDecl, depth int)
+	visit = func(fd *ast.FuncDecl, depth int) {
+		if fd == nil || fd.Body == nil || seen[fd] || depth > 6 {
+			return
+		}
+		seen[fd] = true
+		out = append(out, fd)
+		ast.Inspect(fd.Body, func(n ast.Node) bool {
+			if c, ok := n.(*ast.CallExpr); ok {
+				name := ""
+				switch f := c.Fun.(type) {
+				case *ast.Ident:
+					name = f.Name
+				case *ast.SelectorExpr:
+					name = f.Sel.Name
+				}
+				if name != "" {
+					if callee := x.anyFuncDecl(dir, name); callee != nil {
+						visit(callee, depth+1)
+					}
+				}
+			}
+			return true
+		})
+	}
+	for _, r := range roots {
+		visit(r, 0)
+	}
+	return out
+}
+
+// c15Calls says whether fd (transitively, same package) calls a function named target.
+func c15CallsInto(x *X, dir string, fd *ast.FuncDecl, target string) bool {
+	for _, g := range c15Reachable(x, dir, fd) {
+		if g.Name.Name == target {
+			return true
+		}
+	}
+	return false
+}
+
+func c15ParamNames(fd *ast.FuncDecl) []string {
+	var ps []string
+	if fd.Type.Params != nil {
+		for _, p := range fd.Type.Params.List {
+			for _, n := range p.Names {
+				ps = append(ps, n.Name)
+			}
+		}
+	}
+	return ps
+}
+
+func c15RecvName(fd *ast.FuncDecl) string {
+	if fd.Recv != nil && len(fd.Recv.List) == 1 && len(fd.Recv.List[0].Names) == 1 {
+		return fd.Recv.List[0].Names[0].Name
+	}
+	return ""
+}
+
+// last field name of a selector chain (cfg.Proxy.Strategy -> "Proxy.Strategy"): the variable's spelling is dropped
+func c15FieldPath(e ast.Expr) string {
+	var parts []string
+	for {
+		se, ok := e.(*ast.SelectorExpr)
+		if !ok {
+			break
+		}
+		parts = append([]string{se.Sel.Name}, parts...)
+		e = se.X
+	}
+	if _, ok := e.(*ast.Ident); !ok || len(parts) == 0 {
+		return ""
+	}
+	return strings.Join(parts, ".")
+}
+
+func c15IsCallTo(x *X, e ast.Expr, fn string) *ast.CallExpr {
+	if c, ok := e.(*ast.CallExpr); ok && x.src(c.Fun) == fn {
+		return c
+	}
+	return nil
+}
+
+func c15ContainsIdent(n ast.Node, name string) bool {
+	found := false
+	ast.Inspect(n, func(m ast.Node) bool {
+		if id, ok := m.(*ast.Ident); ok && id.Name == name {
+			found = true
+		}
+		return !found
+	})
+	return found
+}
+
 func init() {
 	register("C15", func(x *X) error {
+		x.UseNormalizedAST()
 		load := x.funcDecl("config", "", "load")
 		Load := x.funcDecl("config", "", "Load")
 		pf := x.funcDecl("config", "FlagSet", "ParseFlags")
@@ -66,106 +169,113 @@ func init() {
 			return nil
 		}
 
-		// ---- the flag set variable of load: f := NewFlagSet(...)
-		fsVar := ""
-		ast.Inspect(load.Body, func(n ast.Node) bool {
-			as, ok := n.(*ast.AssignStmt)
-			if !ok || len(as.Lhs) != 1 || len(as.Rhs) != 1 {
-				return true
-			}
-			if c, ok := as.Rhs[0].(*ast.CallExpr); ok && x.src(c.Fun) == "NewFlagSet" {
-				if id, ok := as.Lhs[0].(*ast.Ident); ok {
-					fsVar = id.Name
-				}
-			}
-			return true
-		})
-		if fsVar == "" {
-			x.fail("config.load: no `<var> := NewFlagSet(...)` found")
-			return nil
+		// ---- registrations: calls of a known registration method on the flag set, wherever load (or a helper
+		// it calls with the flag set) makes them.  The flag set is "the variable assigned from NewFlagSet(…)" and
+		// every helper parameter it is passed to.
+		type fsScope struct {
+			fd   *ast.FuncDecl
+			name string
 		}
-
-		// ---- registrations
 		var flags []c15Flag
 		seen := map[string]bool{}
-		ast.Inspect(load.Body, func(n ast.Node) bool {
-			c, ok := n.(*ast.CallExpr)
-			if !ok {
-				return true
+		visited := map[*ast.FuncDecl]bool{}
+		kvVars := map[string]bool{} // "&local" handed to a kvslice-based parser
+		var scan func(fd *ast.FuncDecl, fsVar string, depth int)
+		scan = func(fd *ast.FuncDecl, fsVar string, depth int) {
+			if fd == nil || fd.Body == nil || visited[fd] || depth > 4 {
+				return
 			}
-			sel, ok := c.Fun.(*ast.SelectorExpr)
-			if !ok {
-				return true
-			}
-			id, ok := sel.X.(*ast.Ident)
-			if !ok || id.Name != fsVar {
-				return true
-			}
-			m := sel.Sel.Name
-			if c15NonReg[m] {
-				return true
-			}
-			reg, known := c15Reg[m]
-			if !known {
-				x.fail("config.load: unknown registration form %s.%s(...) at %s — teach tools/factgen/c15.go about it", fsVar, m, x.fset.Position(c.Pos()))
-				return true
-			}
-			args := c.Args
-			fl := c15Flag{kind: reg.kind}
-			if reg.target {
-				if len(args) != 4 {
-					x.fail("config.load: %s.%s with %d arguments at %s", fsVar, m, len(args), x.fset.Position(c.Pos()))
-					return true
+			visited[fd] = true
+			ast.Inspect(fd.Body, func(n ast.Node) bool {
+				switch v := n.(type) {
+				case *ast.AssignStmt:
+					if len(v.Lhs) == 1 && len(v.Rhs) == 1 && c15IsCallTo(x, v.Rhs[0], "NewFlagSet") != nil {
+						if id, ok := v.Lhs[0].(*ast.Ident); ok {
+							fsVar = id.Name
+						}
+					}
+				case *ast.CallExpr:
+					// helper that receives the flag set
+					if id, ok := v.Fun.(*ast.Ident); ok && fsVar != "" {
+						if callee := x.anyFuncDecl("config", id.Name); callee != nil {
+							ps := c15ParamNames(callee)
+							for i, a := range v.Args {
+								if aid, ok := a.(*ast.Ident); ok && aid.Name == fsVar && i < len(ps) {
+									scan(callee, ps[i], depth+1)
+								}
+							}
+						}
+					}
+					// kvslice-based parser: an unexported function from which parseKVSlice is reachable
+					if id, ok := v.Fun.(*ast.Ident); ok && len(v.Args) > 0 {
+						if callee := x.anyFuncDecl("config", id.Name); callee != nil && c15CallsInto(x, "config", callee, "parseKVSlice") {
+							if a, ok := v.Args[0].(*ast.Ident); ok {
+								kvVars["&"+a.Name] = true
+							}
+						}
+					}
+					sel, ok := v.Fun.(*ast.SelectorExpr)
+					if !ok || fsVar == "" {
+						return true
+					}
+					id, ok := sel.X.(*ast.Ident)
+					if !ok || id.Name != fsVar {
+						return true
+					}
+					m := sel.Sel.Name
+					if c15NonReg[m] {
+						return true
+					}
+					reg, known := c15Reg[m]
+					if !known {
+						x.fail("config.load: unknown registration form <flagset>.%s(...) at %s — teach tools/factgen/c15.go about it", m, x.fset.Position(v.Pos()))
+						return true
+					}
+					args := v.Args
+					fl := c15Flag{kind: reg.kind}
+					if reg.target {
+						if len(args) != 4 {
+							x.fail("config.load: <flagset>.%s with %d arguments at %s", m, len(args), x.fset.Position(v.Pos()))
+							return true
+						}
+						fl.target = x.src(args[0])
+						args = args[1:]
+					} else if len(args) != 3 {
+						x.fail("config.load: <flagset>.%s with %d arguments at %s", m, len(args), x.fset.Position(v.Pos()))
+						return true
+					}
+					name, ok := x.strLit(args[0])
+					if !ok {
+						x.fail("config.load: flag name is not a string literal: %s at %s", x.src(args[0]), x.fset.Position(v.Pos()))
+						return true
+					}
+					fl.name = name
+					switch d := args[1].(type) {
+					case *ast.BasicLit:
+						if s, ok := x.strLit(d); ok {
+							fl.dflt, fl.hasDflt = s, true
+						} else {
+							fl.dflt, fl.hasDflt = d.Value, true
+						}
+					case *ast.Ident:
+						if d.Name == "true" || d.Name == "false" {
+							fl.dflt, fl.hasDflt = d.Name, true
+						}
+					}
+					if seen[name] {
+						x.fail("config.load: flag %q registered twice", name)
+					}
+					seen[name] = true
+					flags = append(flags, fl)
 				}
-				fl.target = x.src(args[0])
-				args = args[1:]
-			} else if len(args) != 3 {
-				x.fail("config.load: %s.%s with %d arguments at %s", fsVar, m, len(args), x.fset.Position(c.Pos()))
 				return true
-			}
-			name, ok := x.strLit(args[0])
-			if !ok {
-				x.fail("config.load: flag name is not a string literal: %s at %s", x.src(args[0]), x.fset.Position(c.Pos()))
-				return true
-			}
-			fl.name = name
-			switch d := args[1].(type) {
-			case *ast.BasicLit:
-				if s, ok := x.strLit(d); ok {
-					fl.dflt, fl.hasDflt = s, true
-				} else {
-					fl.dflt, fl.hasDflt = d.Value, true
-				}
-			case *ast.Ident:
-				if d.Name == "true" || d.Name == "false" {
-					fl.dflt, fl.hasDflt = d.Name, true
-				}
-			}
-			if seen[name] {
-				x.fail("config.load: flag %q registered twice", name)
-			}
-			seen[name] = true
-			flags = append(flags, fl)
-			return true
-		})
+			})
+		}
+		scan(load, "", 0)
 		if len(flags) == 0 {
-			x.fail("config.load: no flag registrations found")
+			x.fail("config.load: no flag registrations found (no `<var> := NewFlagSet(...)` or no known registration calls)")
 			return nil
 		}
-
-		// ---- kvslice-valued options: local variables handed to a kvslice-based parser
-		kvParsers := map[string]bool{"parseKVSlice": true, "parseListeners": true, "parseCertSources": true, "parseAuthSchemes": true, "parseBGPPeers": true}
-		kvVars := map[string]bool{}
-		ast.Inspect(load.Body, func(n ast.Node) bool {
-			if c, ok := n.(*ast.CallExpr); ok {
-				if id, ok := c.Fun.(*ast.Ident); ok && kvParsers[id.Name] && len(c.Args) > 0 {
-					if a, ok := c.Args[0].(*ast.Ident); ok {
-						kvVars["&"+a.Name] = true
-					}
-				}
-			}
-			return true
-		})
 		var kvFlags []string
 		for i := range flags {
 			if kvVars[flags[i].target] {
@@ -191,34 +301,50 @@ func init() {
 		x.defRaw("def flagNames : List (List Char) := flagTable.map (·.1)")
 		x.defStrList("kvsliceFlags", kvFlags)
 
-		// ---- prefixes: envprefix := []string{"FABIO_", ""} in Load
+		// ---- prefixes: the third argument of the call Load makes to load; environ: Load's own second parameter
 		var prefixes []string
-		foundPfx := false
-		ast.Inspect(Load.Body, func(n ast.Node) bool {
-			as, ok := n.(*ast.AssignStmt)
-			if !ok || len(as.Lhs) != 1 || len(as.Rhs) != 1 {
-				return true
-			}
-			if id, ok := as.Lhs[0].(*ast.Ident); !ok || id.Name != "envprefix" {
-				return true
-			}
-			cl, ok := as.Rhs[0].(*ast.CompositeLit)
+		foundPfx, passes := false, false
+		LoadParams := c15ParamNames(Load)
+		prefixLit := func(e ast.Expr) bool {
+			cl, ok := e.(*ast.CompositeLit)
 			if !ok {
-				x.fail("config.Load: envprefix is not a composite literal: %s", x.src(as.Rhs[0]))
-				return true
+				return false
 			}
-			foundPfx = true
-			for _, e := range cl.Elts {
-				s, ok := x.strLit(e)
+			prefixes = nil
+			for _, el := range cl.Elts {
+				s, ok := x.strLit(el)
 				if !ok {
-					x.fail("config.Load: envprefix element is not a string literal: %s", x.src(e))
+					x.fail("config.Load: environment prefix is not a string literal: %s", x.src(el))
 				}
 				prefixes = append(prefixes, s)
 			}
 			return true
-		})
+		}
+		for _, c := range x.calls(Load.Body, "load") {
+			if len(c.Args) != 4 {
+				continue
+			}
+			if id, ok := c.Args[1].(*ast.Ident); ok && len(LoadParams) >= 2 && id.Name == LoadParams[1] {
+				passes = true
+			}
+			if prefixLit(c.Args[2]) {
+				foundPfx = true
+			} else if id, ok := c.Args[2].(*ast.Ident); ok {
+				ast.Inspect(Load.Body, func(n ast.Node) bool {
+					if as, ok := n.(*ast.AssignStmt); ok && len(as.Lhs) == 1 && len(as.Rhs) == 1 {
+						if l, ok := as.Lhs[0].(*ast.Ident); ok && l.Name == id.Name && prefixLit(as.Rhs[0]) {
+							foundPfx = true
+						}
+					}
+					if vs, ok := n.(*ast.ValueSpec); ok && len(vs.Names) == 1 && len(vs.Values) == 1 && vs.Names[0].Name == id.Name && prefixLit(vs.Values[0]) {
+						foundPfx = true
+					}
+					return true
+				})
+			}
+		}
 		if !foundPfx {
-			x.fail("config.Load: assignment to envprefix not found")
+			x.fail("config.Load: the prefix list passed to load(…) is not a literal []string")
 		}
 		x.defStrList("prefixStrings", prefixes)
 		var pcs []string
@@ -241,165 +367,197 @@ func init() {
 			}
 		}
 		x.defRaw("def mangledCodes : List Nat := [\n  " + strings.Join(mangled, ",\n  ") + "]")
-		// load is called with that variable
-		passes := false
-		for _, c := range x.calls(Load.Body, "load") {
-			if len(c.Args) == 4 && x.src(c.Args[2]) == "envprefix" && x.src(c.Args[1]) == "environ" {
-				passes = true
-			}
-		}
 		x.defBool("loadReceivesEnvironAndPrefixes", passes)
 
-		// ---- ParseFlags: order of the blocks
-		type ev struct {
-			pos  token.Pos
-			what string
+		// ---- ParseFlags: ordered events (helpers followed), identified by callee names and roles
+		recv := c15RecvName(pf)
+		pfParams := c15ParamNames(pf)
+		propsParam := ""
+		if len(pfParams) >= 4 {
+			propsParam = pfParams[3]
 		}
-		var evs []ev
-		add := func(p token.Pos, w string) { evs = append(evs, ev{p, w}) }
-		recv := "f"
-		if pf.Recv != nil && len(pf.Recv.List) == 1 && len(pf.Recv.List[0].Names) == 1 {
-			recv = pf.Recv.List[0].Names[0].Name
+		var order []string
+		once := map[string]bool{}
+		add := func(w string) {
+			if !once[w] {
+				once[w] = true
+				order = append(order, w)
+			}
 		}
-		var visitAll *ast.FuncLit
-		envGuarded, envKeyUpper := false, false
-		ast.Inspect(pf.Body, func(n ast.Node) bool {
+		envKeyUpper, envUpper, envDots := false, false, false
+		inVisitAll := map[ast.Node]bool{}
+		x.WalkInlined("config", pf, func(n ast.Node) bool {
 			switch v := n.(type) {
 			case *ast.CallExpr:
-				switch x.src(v.Fun) {
-				case recv + ".Parse":
-					add(v.Pos(), "cmdline")
-				case recv + ".Visit":
-					add(v.Pos(), "mark-cmdline-set")
-				case recv + ".VisitAll":
-					if len(v.Args) == 1 {
-						if fl, ok := v.Args[0].(*ast.FuncLit); ok {
-							visitAll = fl
+				if sel, ok := v.Fun.(*ast.SelectorExpr); ok {
+					if id, ok := sel.X.(*ast.Ident); ok && id.Name == recv && recv != "" {
+						switch sel.Sel.Name {
+						case "Parse":
+							add("cmdline")
+						case "Visit":
+							add("mark-cmdline-set")
+						case "VisitAll":
+							if len(v.Args) == 1 {
+								if fl, ok := v.Args[0].(*ast.FuncLit); ok {
+									ast.Inspect(fl.Body, func(m ast.Node) bool {
+										if m != nil {
+											inVisitAll[m] = true
+										}
+										return true
+									})
+								}
+							}
+						}
+					}
+					if id, ok := sel.X.(*ast.Ident); ok && sel.Sel.Name == "Get" && id.Name == propsParam && inVisitAll[n] {
+						add("props")
+					}
+				}
+				// strings.SplitN(entry, "=", 2): the environment block is being split into a map
+				if x.src(v.Fun) == "strings.SplitN" && len(v.Args) == 3 {
+					if s, ok := x.strLit(v.Args[1]); ok && s == "=" && x.src(v.Args[2]) == "2" {
+						add("env-map")
+					}
+				}
+			case *ast.AssignStmt:
+				// m[strings.ToUpper(parts[0])] = parts[1]
+				if len(v.Lhs) == 1 && len(v.Rhs) == 1 {
+					if ie, ok := v.Lhs[0].(*ast.IndexExpr); ok {
+						if c := c15IsCallTo(x, ie.Index, "strings.ToUpper"); c != nil && len(c.Args) == 1 {
+							k, okk := c.Args[0].(*ast.IndexExpr)
+							r, okr := v.Rhs[0].(*ast.IndexExpr)
+							if okk && okr && x.src(k.X) == x.src(r.X) && x.src(k.Index) == "0" && x.src(r.Index) == "1" {
+								envKeyUpper = true
+							}
+						}
+					}
+				}
+			case *ast.IfStmt:
+				// if <recv>.<field>[…] { return }   inside the VisitAll callback
+				if inVisitAll[n] && len(v.Body.List) == 1 {
+					if _, ok := v.Body.List[0].(*ast.ReturnStmt); ok {
+						if ie, ok := v.Cond.(*ast.IndexExpr); ok {
+							if se, ok := ie.X.(*ast.SelectorExpr); ok {
+								if id, ok := se.X.(*ast.Ident); ok && id.Name == recv {
+									add("skip-if-set")
+								}
+							}
 						}
 					}
 				}
 			case *ast.RangeStmt:
-				if x.src(v.X) == "environ" {
-					add(v.Pos(), "env-map")
-					// guard before p[1]
-					var guard, idx token.Pos
+				// for _, pfx := range <prefixes>: the loop whose body upper-cases prefix + mangled flag name
+				if inVisitAll[n] {
+					val, _ := v.Value.(*ast.Ident)
 					ast.Inspect(v.Body, func(m ast.Node) bool {
-						switch w := m.(type) {
-						case *ast.IfStmt:
-							if strings.Contains(x.src(w.Cond), "len(") && guard == 0 {
-								guard = w.Pos()
+						c, ok := m.(*ast.CallExpr)
+						if !ok || x.src(c.Fun) != "strings.ToUpper" || val == nil || !c15ContainsIdent(c, val.Name) {
+							return true
+						}
+						add("env")
+						envUpper = true
+						ast.Inspect(c, func(k ast.Node) bool {
+							r, ok := k.(*ast.CallExpr)
+							if !ok {
+								return true
 							}
-						case *ast.IndexExpr:
-							if x.src(w.Index) == "1" && idx == 0 {
-								idx = w.Pos()
+							fn := x.src(r.Fun)
+							okArgs := (fn == "strings.Replace" && len(r.Args) == 4 && x.src(r.Args[3]) == "-1") || (fn == "strings.ReplaceAll" && len(r.Args) == 3)
+							if okArgs && c15FieldPath(r.Args[0]) == "Name" {
+								a, ok1 := x.strLit(r.Args[1])
+								b, ok2 := x.strLit(r.Args[2])
+								if ok1 && ok2 && a == "." && b == "_" {
+									envDots = true
+								}
 							}
-						case *ast.AssignStmt:
-							if len(w.Lhs) == 1 {
-								if ie, ok := w.Lhs[0].(*ast.IndexExpr); ok && strings.HasPrefix(x.src(ie.Index), "strings.ToUpper(") {
-									envKeyUpper = true
+							return true
+						})
+						return true
+					})
+				}
+			}
+			return true
+		})
+		x.defStrList("parseOrder", order)
+		x.defBool("envKeyUpperCased", envKeyUpper)
+		x.defBool("envNameUpperCased", envUpper)
+		x.defBool("envNameDotsReplaced", envDots)
+
+		// ---- validations in load (and the helpers it calls): identified by the Config field they test
+		reach := c15Reachable(x, "config", load)
+		enum := func(field string) []string {
+			var vals []string
+			have := map[string]bool{}
+			for _, fd := range reach {
+				ast.Inspect(fd.Body, func(n ast.Node) bool {
+					is, ok := n.(*ast.IfStmt)
+					if !ok {
+						return true
+					}
+					ast.Inspect(is.Cond, func(m ast.Node) bool {
+						if b, ok := m.(*ast.BinaryExpr); ok && (b.Op == token.NEQ || b.Op == token.EQL) {
+							lit, other := b.Y, b.X
+							if _, isLit := x.strLit(b.X); isLit {
+								lit, other = b.X, b.Y
+							}
+							if c15FieldPath(other) == field {
+								if s, ok := x.strLit(lit); ok && !have[s] {
+									have[s] = true
+									vals = append(vals, s)
 								}
 							}
 						}
 						return true
 					})
-					envGuarded = idx == 0 || (guard != 0 && guard < idx)
-				}
-			}
-			return true
-		})
-		envUpper, envDots := false, false
-		if visitAll == nil {
-			x.fail("FlagSet.ParseFlags: no %s.VisitAll(func…) found", recv)
-		} else {
-			ast.Inspect(visitAll.Body, func(n ast.Node) bool {
-				switch v := n.(type) {
-				case *ast.IfStmt:
-					if strings.Contains(x.src(v.Cond), recv+".set[") && len(v.Body.List) == 1 {
-						if _, ok := v.Body.List[0].(*ast.ReturnStmt); ok {
-							add(v.Pos(), "skip-if-set")
-						}
-					}
-				case *ast.RangeStmt:
-					if x.src(v.X) == "prefixes" {
-						add(v.Pos(), "env")
-						ast.Inspect(v.Body, func(m ast.Node) bool {
-							if c, ok := m.(*ast.CallExpr); ok {
-								s := x.src(c)
-								if strings.HasPrefix(s, "strings.ToUpper(") && strings.Contains(s, "pfx") {
-									envUpper = true
-									if strings.Contains(s, `strings.Replace(fl.Name, ".", "_", -1)`) || strings.Contains(s, `strings.ReplaceAll(fl.Name, ".", "_")`) {
-										envDots = true
-									}
-								}
-							}
-							return true
-						})
-					}
-				case *ast.CallExpr:
-					if x.src(v.Fun) == "p.Get" {
-						add(v.Pos(), "props")
-					}
-				}
-				return true
-			})
-		}
-		sort.Slice(evs, func(i, j int) bool { return evs[i].pos < evs[j].pos })
-		var order []string
-		for _, e := range evs {
-			order = append(order, e.what)
-		}
-		x.defStrList("parseOrder", order)
-		x.defBool("envEntryWithoutEqGuarded", envGuarded)
-		x.defBool("envKeyUpperCased", envKeyUpper)
-		x.defBool("envNameUpperCased", envUpper)
-		x.defBool("envNameDotsReplaced", envDots)
-
-		// ---- validations in load
-		enum := func(field string) []string {
-			var vals []string
-			ast.Inspect(load.Body, func(n ast.Node) bool {
-				is, ok := n.(*ast.IfStmt)
-				if !ok || !strings.Contains(x.src(is.Cond), field+" != ") {
-					return true
-				}
-				ast.Inspect(is.Cond, func(m ast.Node) bool {
-					if b, ok := m.(*ast.BinaryExpr); ok && b.Op == token.NEQ && x.src(b.X) == field {
-						if s, ok := x.strLit(b.Y); ok {
-							vals = append(vals, s)
-						}
-					}
 					return true
 				})
-				return false
-			})
+			}
 			if len(vals) == 0 {
 				x.fail("config.load: validation of %s not found", field)
 			}
+			sort.Strings(vals)
 			return vals
 		}
-		x.defStrList("strategyValues", enum("cfg.Proxy.Strategy"))
-		x.defStrList("matcherValues", enum("cfg.Proxy.Matcher"))
-		x.defStrList("uiAccessValues", enum("cfg.UI.Access"))
-		glob := ""
-		ast.Inspect(load.Body, func(n ast.Node) bool {
-			is, ok := n.(*ast.IfStmt)
-			if !ok || !strings.Contains(x.src(is.Cond), "cfg.GlobCacheSize") {
-				return true
-			}
-			for _, st := range is.Body.List {
-				if r, ok := st.(*ast.ReturnStmt); ok && len(r.Results) == 2 && x.src(r.Results[0]) == "nil" {
-					glob = x.src(is.Cond)
+		x.defStrList("strategyValues", enum("Proxy.Strategy"))
+		x.defStrList("matcherValues", enum("Proxy.Matcher"))
+		x.defStrList("uiAccessValues", enum("UI.Access"))
+		// glob.cache.size: an unconditional `if <cfg>.GlobCacheSize <= 0 { return nil, err }` (or `< 1`, or the
+		// mirrored forms) at the top level of a function on load's path
+		globRejected := false
+		for _, fd := range reach {
+			for _, st := range fd.Body.List {
+				is, ok := st.(*ast.IfStmt)
+				if !ok {
+					continue
+				}
+				b, ok := is.Cond.(*ast.BinaryExpr)
+				if !ok {
+					continue
+				}
+				form := ""
+				switch {
+				case c15FieldPath(b.X) == "GlobCacheSize":
+					form = b.Op.String() + " " + x.src(b.Y)
+				case c15FieldPath(b.Y) == "GlobCacheSize":
+					form = map[token.Token]string{token.GEQ: "<=", token.GTR: "<"}[b.Op] + " " + x.src(b.X)
+				}
+				if form != "<= 0" && form != "< 1" {
+					continue
+				}
+				for _, s := range is.Body.List {
+					if r, ok := s.(*ast.ReturnStmt); ok && len(r.Results) == 2 && x.src(r.Results[0]) == "nil" && x.src(r.Results[1]) != "nil" {
+						globRejected = true
+					}
 				}
 			}
-			return true
-		})
-		x.defStr("globCacheSizeRejectedWhen", glob)
+		}
+		x.defBool("globCacheSizeBelowOneRejected", globRejected)
 		// the glob cache is built from exactly that field
 		uses := 0
 		for _, f := range x.files(".") {
 			ast.Inspect(f, func(n ast.Node) bool {
 				if c, ok := n.(*ast.CallExpr); ok && x.src(c.Fun) == "route.NewGlobCache" {
-					if len(c.Args) == 1 && x.src(c.Args[0]) == "cfg.GlobCacheSize" {
+					if len(c.Args) == 1 && c15FieldPath(c.Args[0]) == "GlobCacheSize" {
 						uses++
 					} else {
 						x.fail("route.NewGlobCache called with %s", x.src(c))
@@ -409,7 +567,7 @@ func init() {
 			})
 		}
 		x.defNat("globCacheBuiltFromConfig", uint64(uses))
-		c15EmitIndexGuards(x)
+		c15EmitIndexGuards(x, append(c15Reachable(x, "config", Load), c15Reachable(x, "config", pf)...))
 		return nil
 	})
 }
